@@ -8,6 +8,7 @@ package c07
 import (
 	"encoding/json"
 	"fmt"
+	"github.com/tailscale/setec/types/api"
 	"math/rand/v2"
 	"path/filepath"
 	"runtime"
@@ -446,7 +447,7 @@ func TestC07(t *testing.T) {
 	// ---- rule sets as a peer presents them: through the capability map and the real front door ----
 	frontDoor(t, r, genRules, rpats, rnames)
 
-	r.Require("decisions_on_edited_rules", "decisions_through_the_front_door", "exhaustive_pairs", "exhaustive_pairs_matching", "random_pairs", "random_pairs_matching", "ruleset_allowed", "ruleset_refused", "ruleset_decisions_via_json", "concurrent_matches")
+	r.Require("listings_through_the_front_door", "decisions_on_edited_rules", "decisions_through_the_front_door", "exhaustive_pairs", "exhaustive_pairs_matching", "random_pairs", "random_pairs_matching", "ruleset_allowed", "ruleset_refused", "ruleset_decisions_via_json", "concurrent_matches")
 	r.Rule("exhaustive: every (pattern,name) pair of the bounded spaces listed in exhaustive_spaces; random: Unicode patterns up to ~40 pieces with names derived by substituting each '*' and optionally perturbing; rule sets of 0-4 rules with 0-3 actions/patterns. A case is non-trivial/distinct by (number of stars capped at 3, leading star, trailing star, has regexp metacharacter, has newline, expected outcome) resp. (rule-set size, expected decision)")
 }
 
@@ -471,7 +472,18 @@ func frontDoor(t *testing.T, r *evid.Run, genRules func(*rand.Rand) []refmodel.R
 		{{Actions: []string{"info"}, Patterns: []string{"a b", "x"}}, {Actions: []string{"info"}, Patterns: []string{"a", "b x"}}, {Actions: []string{"info"}, Patterns: []string{"a", "b", "x"}}},
 		{{Actions: []string{"info"}, Patterns: []string{"x"}}, {Actions: []string{"info"}, Patterns: []string{"x"}}, {Actions: []string{"info"}, Patterns: []string{"dev/*"}}},
 	}
-	names := append(append([]string{}, rnames...), "dev", "ops", "dev ops", "get a", "a b", "b x", "b")
+	names := append(append([]string{}, rnames...), "dev", "ops", "dev ops", "get a", "a b", "b x", "b",
+		"dev/🔑", "dev/\U0001F600x", "dev/\uffffz", "dev/\U0010FFFF", "a\U0001F511b", "équipe/\U0001F510", "dev/~", "dev/\u007f")
+	// every name of the pool exists, so that a listing has something to show
+	stored := map[string]bool{}
+	for _, n := range names {
+		if n != "" && !stored[n] {
+			stored[n] = true
+			if _, err := d.Put(realdb.Super(), n, []byte("v")); err != nil {
+				delete(stored, n) // (reserved names cannot be created)
+			}
+		}
+	}
 	for i := 0; i < r.N(400, 6000); i++ {
 		rules := genRules(rng)
 		if i < 4*len(lookalikes) {
@@ -480,6 +492,25 @@ func frontDoor(t *testing.T, r *evid.Run, genRules func(*rand.Rand) []refmodel.R
 			rules = append(rules, rules[rng.IntN(len(rules))]) // a genuinely repeated rule
 		}
 		srv.SetWho(addr, httpdrv.Who{Login: "peer@verif", Node: "peer", Rules: rules})
+		// the listing shows exactly the stored names on which the rules give info
+		if rep := srv.Raw("POST", "/api/list", addr, httpdrv.GoodHeaders, []byte("{}")); rep.Status == 200 {
+			var infos []*api.SecretInfo
+			json.Unmarshal(rep.Body, &infos)
+			listed := map[string]bool{}
+			for _, in := range infos {
+				listed[in.Name] = true
+			}
+			r.Count("listings_through_the_front_door", 1)
+			for n := range stored {
+				if want := refmodel.Allowed(rules, "info", n); want != listed[n] {
+					r.Violation("allow-differs-at-the-front-door", -1, fmt.Sprintf("a peer presenting the rules %+v lists the secrets: %q listed=%t, but a single rule giving info with a matching pattern exists: %t", rules, n, listed[n], want), map[string]any{"rules": rules, "name": n})
+					return
+				}
+			}
+		} else {
+			r.Violation("allow-differs-at-the-front-door", -1, fmt.Sprintf("list answered %d", rep.Status), nil)
+			return
+		}
 		for k := 0; k < 10; k++ {
 			name := names[rng.IntN(len(names))]
 			if name == "" {
